@@ -490,6 +490,18 @@ class NF(object):
             return out
         if isinstance(test, ast.Constant):
             return [p] if bool(test.value) == truth else []
+        if isinstance(test, ast.Compare) and len(test.ops) == 1 and isinstance(test.ops[0], (ast.Is, ast.IsNot, ast.Eq, ast.NotEq)):
+            out_ = []
+            for q, r in self.ev(p, test):
+                if isinstance(r, ast.Compare) and isinstance(r.left, ast.Constant) and isinstance(r.comparators[0], ast.Constant):
+                    from .summ import dnf
+                    if dnf(r, truth):
+                        out_.append(q)
+                else:
+                    q.conds.append(atom(r, truth))
+                    if consistent(q.conds):
+                        out_.append(q)
+            return out_
         if isinstance(test, ast.Call) and isinstance(test.func, ast.Name) and test.func.id == "isinstance" and len(test.args) == 2 \
                 and isinstance(test.args[1], ast.Tuple) and len(test.args[1].elts) > 1 and not has_impure(test):
             # isinstance(x, (A, B))  ==  isinstance(x, A) or isinstance(x, B)
